@@ -79,6 +79,12 @@ fn other_same_class(c: u8, salt: usize) -> u8 {
 /// Variant k of a correct signature: k in 0..64: only position k wrong;
 /// 64..128: positions (k-64)..63 all wrong; 128: the correct signature itself is NOT used.
 pub fn variant(sig: &str, k: usize) -> String {
+    if k >= 128 {
+        // upper-case family: the same wrong characters, letters written in upper case
+        // (128..191: only position k-128 wrong; 192: all wrong)
+        let inner = if k == 192 { variant(sig, 64) } else { variant(sig, k - 128) };
+        return inner.to_uppercase();
+    }
     let mut b = sig.as_bytes().to_vec();
     if k < 64 {
         b[k] = other_same_class(b[k], k);
@@ -214,13 +220,15 @@ pub fn tracer_main(args: &[String]) -> i32 {
         }
     }
     // everything needed later is allocated now: nothing may change this process's heap between forks
-    let mut wires: Vec<(usize, WireReq)> = Vec::with_capacity(variants.len() + 2);
+    let mut wires: Vec<(usize, WireReq)> = Vec::with_capacity(variants.len() + 3);
     wires.push((64, put_signature(&wire, &sig, &variant(&sig, 64)))); // reference: all wrong
     wires.push((64, put_signature(&wire, &sig, &variant(&sig, 64)))); // reference again: determinism check
+    wires.push((192, put_signature(&wire, &sig, &variant(&sig, 192)))); // reference of the upper-case family
     for v in &variants {
         wires.push((*v, put_signature(&wire, &sig, &variant(&sig, *v))));
     }
     let mut reference: Vec<u64> = Vec::with_capacity(400_000);
+    let mut reference_upper: Vec<u64> = Vec::with_capacity(400_000);
     let mut results: Vec<TraceResult> = Vec::with_capacity(wires.len());
     let mut codes: Vec<i32> = Vec::with_capacity(wires.len());
     for (n, (v, w)) in wires.iter().enumerate() {
@@ -238,13 +246,22 @@ pub fn tracer_main(args: &[String]) -> i32 {
                     hash = fold(hash, rip);
                     steps += 1;
                 })
+            } else if n == 2 {
+                trace_one(w, &cfg, &prov, &mut |rip| {
+                    if reference_upper.len() < reference_upper.capacity() {
+                        reference_upper.push(rip);
+                    }
+                    hash = fold(hash, rip);
+                    steps += 1;
+                })
             } else {
+                let r: &Vec<u64> = if *v >= 128 { &reference_upper } else { &reference };
                 trace_one(w, &cfg, &prov, &mut |rip| {
                     if first_div < 0 {
                         let i = steps as usize;
-                        if i >= reference.len() || reference[i] != rip {
+                        if i >= r.len() || r[i] != rip {
                             first_div = steps as i64;
-                            rip_ref = reference.get(i).copied().unwrap_or(0);
+                            rip_ref = r.get(i).copied().unwrap_or(0);
                             rip_got = rip;
                         }
                     }
@@ -253,9 +270,12 @@ pub fn tracer_main(args: &[String]) -> i32 {
                 })
             }
         };
-        if n > 0 && first_div < 0 && (steps as usize) < reference.len() {
-            first_div = steps as i64; // shorter than the reference
-            rip_ref = reference[steps as usize];
+        if n > 2 || n == 1 {
+            let r: &Vec<u64> = if *v >= 128 { &reference_upper } else { &reference };
+            if first_div < 0 && (steps as usize) < r.len() {
+                first_div = steps as i64; // shorter than the reference
+                rip_ref = r[steps as usize];
+            }
         }
         codes.push(code);
         results.push(TraceResult { variant: *v, steps, hash, first_divergence: first_div, rip_ref, rip_got, refused: code == 0 });
@@ -265,7 +285,7 @@ pub fn tracer_main(args: &[String]) -> i32 {
     for (n, r) in results.iter().enumerate() {
         println!(
             "{}",
-            json!({"request": name, "secret": si, "variant": r.variant, "role": if n == 0 { "reference" } else if n == 1 { "reference-repeat" } else { "variant" },
+            json!({"request": name, "secret": si, "variant": r.variant, "role": if n == 0 { "reference" } else if n == 1 { "reference-repeat" } else if n == 2 { "reference-upper" } else { "variant" },
                    "steps": r.steps, "hash": format!("{:016x}", r.hash), "first_divergence": r.first_divergence,
                    "rip_reference_offset": format!("{:#x}", r.rip_ref.wrapping_sub(base)), "rip_observed_offset": format!("{:#x}", r.rip_got.wrapping_sub(base)),
                    "refused": r.refused, "child_code": codes[n], "signature": variant(&sig, r.variant)})
@@ -306,7 +326,8 @@ pub fn run(ctx: &Ctx) -> Report {
     } else {
         vec![(0, 0)]
     };
-    let variants: Vec<usize> = if thorough { (0..128).collect() } else { (0..64).collect() };
+    // 0..63 only position p wrong; 64..127 positions p.. wrong; 128..191 only p wrong, written in upper case
+    let variants: Vec<usize> = if thorough { (0..192).collect() } else { (0..64).chain((128..192).step_by(4)).collect() };
     // split each group's variants over worker processes
     let workers = 16usize;
     let per_group = (workers / groups.len()).max(1);
@@ -349,7 +370,7 @@ pub fn run(ctx: &Ctx) -> Report {
     let mut index = 0u64;
     let mut lengths: std::collections::BTreeSet<u64> = std::collections::BTreeSet::new();
     for (si, ri, lines) in &outputs {
-        if lines.len() < 3 {
+        if lines.len() < 4 {
             machinery_error("tracer printed too few results");
         }
         let reference = &lines[0];
@@ -369,7 +390,9 @@ pub fn run(ctx: &Ctx) -> Report {
                 machinery_error(&format!("traced child did not refuse with SignatureDoesNotMatch: {}", l));
             }
         }
-        for l in lines.iter().skip(2) {
+        let reference_upper = &lines[2];
+        for l in lines.iter().skip(3) {
+            let reference = if l["variant"].as_u64().unwrap_or(0) >= 128 { reference_upper } else { reference };
             st.evaluations += 1;
             st.validated += 1;
             st.transitions += l["steps"].as_u64().unwrap_or(0);
@@ -398,7 +421,7 @@ pub fn run(ctx: &Ctx) -> Report {
     Report {
         stats: st,
         rule: format!(
-            "for each of {} (request, key) groups ({}): wrong signatures of the correct length — only position p wrong for every p in 0..63{} — substituted within the character's class (digit->digit, letter->letter); each is validated in a forked, warmed-up child of a single-threaded tracer (ship-profile build, logger off, byte-wise early-exit memcmp/bcmp linked in) and single-stepped under ptrace from just before to just after sigv4_validate_request; every trace must have the same length and the same RIP-sequence hash as the group's reference trace (all 64 characters wrong), which is itself traced twice to prove the apparatus deterministic. states = distinct (group, trace hash); transitions = machine instructions stepped",
+            "for each of {} (request, key) groups ({}): wrong signatures of the correct length — only position p wrong for every p in 0..63{} — substituted within the character's class (digit->digit, letter->letter), in lower case and (every 4th position in quick, all in thorough) with the letters in upper case, each family compared with its own all-wrong reference; each is validated in a forked, warmed-up child of a single-threaded tracer (ship-profile build, logger off, byte-wise early-exit memcmp/bcmp linked in) and single-stepped under ptrace from just before to just after sigv4_validate_request; every trace must have the same length and the same RIP-sequence hash as the group's reference trace (all 64 characters wrong), which is itself traced twice to prove the apparatus deterministic. states = distinct (group, trace hash); transitions = machine instructions stepped",
             groups.len(),
             if thorough { "GET vanilla, POST body, query carrier x 2 secrets" } else { "GET vanilla, first secret" },
             if thorough { ", and positions p..63 all wrong for every p" } else { "" }
